@@ -104,6 +104,10 @@ pub struct JobPlan {
     /// controls issued by a holder task `gap` ms later (the holder keeps a Job clone for the whole run)
     pub later: Vec<(u64, Op)>,
     pub hold_clone: bool,
+    /// Some(k): the job is obtained with get_or_create_job under the k-th fixed id of the scenario
+    /// (so that a deleted job can be re-created under the same id); None: create_job with a fresh id
+    #[serde(default)]
+    pub fixed_id: Option<u8>,
 }
 
 #[derive(Clone, Debug, Serialize, Deserialize, PartialEq, Eq, Hash)]
@@ -239,6 +243,7 @@ pub struct LibWorld {
     pub holders: Vec<tokio::task::JoinHandle<()>>,
     pub in_handler: bool,
     pub main_ended: bool,
+    pub fixed_ids: Vec<watchexec::Id>,
 }
 
 fn lib<R>(f: impl FnOnce(&mut LibWorld) -> R) -> R {
@@ -506,7 +511,19 @@ fn on_batch(mut action: ActionHandler) -> (ActionHandler, u64, u32) {
                 r.world.ensure_job(ji);
                 r.world.specs[ji] = if plan.children.is_empty() { vec![ChildSpec::default()] } else { plan.children.clone() };
             });
-            let (_id, job) = action.create_job(sim_command(jobno, plan.grouped, plan.session));
+            let job = match plan.fixed_id {
+                None => action.create_job(sim_command(jobno, plan.grouped, plan.session)).1,
+                Some(k) => {
+                    let id = lib(|l| {
+                        while l.fixed_ids.len() <= k as usize {
+                            l.fixed_ids.push(watchexec::Id::default());
+                        }
+                        l.fixed_ids[k as usize]
+                    });
+                    let (grouped, session) = (plan.grouped, plan.session);
+                    action.get_or_create_job(id, move || sim_command(jobno, grouped, session))
+                }
+            };
             lib(|l| l.jobs_created += 1);
             for (oi, op) in plan.ops.iter().enumerate() {
                 let opid = (ji * 1000 + oi) as u32;
@@ -758,6 +775,10 @@ async fn e2_root(scn: E2Scn) {
         let r = tokio::time::timeout(Duration::from_millis(HOUR_MS), wx.send_event(make_event(PROBE_ID, false), Priority::Normal)).await;
         log(Ev::EvSent { id: PROBE_ID, ok: matches!(r, Ok(Ok(()))) });
         settle(quiet).await;
+    }
+    // a long idle stretch (virtual time is free): nothing may happen in it
+    if !monitor.is_finished() {
+        sleep_ms(HOUR_MS).await;
     }
     log(Ev::Note { what: "quiescent", a: 0, b: 0 });
     // final marker: urgent, makes the handler quit (abort) unless the scenario has quit already
